@@ -353,11 +353,13 @@ class Check:
         self.pid, self.tier, self.seed = pid, tier, seed
         self.t0 = time.time()
         self.rng = random.Random(seed * 1000003 + int(pid[1:]))
-        self.work = os.path.join(WORK, pid)
+        # a run against a scratch copy (VERIF_REPO) keeps its work files, replays and evidence apart from /repo's
+        self.work = os.path.join(WORK, pid + _TAG)
+        self.outdir = ROOT if not _TAG else os.path.join(WORK, "out" + _TAG)
         shutil.rmtree(self.work, ignore_errors=True)
         os.makedirs(self.work, exist_ok=True)
-        os.makedirs(os.path.join(ROOT, "replays"), exist_ok=True)
-        os.makedirs(os.path.join(ROOT, "evidence"), exist_ok=True)
+        os.makedirs(os.path.join(self.outdir, "replays"), exist_ok=True)
+        os.makedirs(os.path.join(self.outdir, "evidence"), exist_ok=True)
         self.violations = []          # (replay path, nofail flag)
         self.known_hits = {}          # key -> what
         self.known, self.fixed = load_known(pid)
@@ -374,7 +376,7 @@ class Check:
         obligation when nofail)."""
         body = json.dumps(replay, sort_keys=True, indent=1)
         h = hashlib.sha1(body.encode()).hexdigest()[:10]
-        path = os.path.join(ROOT, "replays", "%s-%s.json" % (self.pid, h))
+        path = os.path.join(self.outdir, "replays", "%s-%s.json" % (self.pid, h))
         replay = dict(replay)
         replay.setdefault("property", self.pid)
         replay.setdefault("seed", self.seed)
@@ -428,7 +430,7 @@ class Check:
               "known_findings_seen": sorted(self.known_hits)}
         if not ev["coverage"]["samples"]:
             ev["coverage"]["samples"] = ["(no case was run)"]
-        open(os.path.join(ROOT, "evidence", self.pid + ".json"), "w").write(json.dumps(ev, indent=1, sort_keys=True))
+        open(os.path.join(self.outdir, "evidence", self.pid + ".json"), "w").write(json.dumps(ev, indent=1, sort_keys=True))
         return 1 if self.violations else 0
 
 
